@@ -40,9 +40,9 @@ def flatten (items : List Item) : List (List Nat) := items.flatMap Item.slots
   simp [flatten]
 
 /-- the long name the reader attaches to a run (`[]` for no run) -/
-def nameOf (R : List (List Nat)) : List Nat := capName (stripTrailing (runUnits R))
+def nameOf (R : List (List Nat)) : List Nat := capName (cutAtNul (runUnits R))
 
-theorem nameOf_nil : nameOf [] = [] := by simp [nameOf, runUnits, tailUnits, stripTrailing, capName]
+theorem nameOf_nil : nameOf [] = [] := by simp [nameOf, runUnits, tailUnits, cutAtNul, capName]
 
 /-- the listing of an item list whose first slot has index `i` -/
 def listOf : List Item → Nat → List LfnEntry
